@@ -4,6 +4,7 @@
 //  * rwlock/mutex -> the simulator's lock when a scheduled (threaded) run is active, else the real lock
 //  * syslog/openlog/closelog -> counters (the only I/O the library performs)
 #include "sim.h"
+#include <dlfcn.h>
 #include <pthread.h>
 #include <stdarg.h>
 #include <unordered_map>
@@ -78,6 +79,16 @@ void *__wrap_realloc(void *q, size_t n) { void *p = realloc(q, n); if (p || n ==
 void __wrap_free(void *p) { own::on_free(p); free(p); }
 int __wrap_posix_memalign(void **out, size_t al, size_t n) { int r = posix_memalign(out, al, n); if (r == 0) own::on_alloc(*out, n); return r; }
 char *__wrap_strdup(const char *s) { char *p = strdup(s); own::on_alloc(p, p ? strlen(p) + 1 : 0); return p; }
+
+// --- dynamic loader calls of the library (the plug-in .so of a backend and its entry points): failing system calls
+void *__wrap_dlsym(void *h, const char *name) {
+    if (g_dlfail.sym_nth > 0 && --g_dlfail.sym_nth == 0) { g_dlfail.fired++; return nullptr; }
+    return dlsym(h, name);
+}
+void *__wrap_dlopen(const char *f, int fl) {
+    if (g_dlfail.open > 0 && --g_dlfail.open == 0) { g_dlfail.fired++; return nullptr; }
+    return dlopen(f, fl);
+}
 
 // --- locks
 // Under the scheduler the simulator is the lock.  In the tsan flavour the granted lock is additionally taken for real
